@@ -6,7 +6,7 @@ import lane_c16
 import lane_c17
 import lane_c19
 
-QUICK_SHARDS = 4
+QUICK_SHARDS = 8
 THOROUGH_SHARDS = 16
 
 
@@ -19,6 +19,8 @@ def native(prop, spec, tier, seed, v, binname=None, hooks=True, lane="native", e
     extra = list(extra)
     if tier == "thorough" and spec.get("thorough_scale") and not os.environ.get("VERIF_SCALE"):
         extra += ["--scale", str(spec["thorough_scale"])]
+    if tier == "quick" and spec.get("quick_scale"):
+        extra += ["--qscale", str(spec["quick_scale"])]
     reports = C.run_shards(binpath, prop, tier, seed, nsh, extra=extra, tag=lane)
     v.add_native(C.merge_reports(reports), lane=lane)
 
@@ -96,42 +98,42 @@ def setup():
 EXPL = "exploration"
 PROPS = {
     "C01": dict(
-        thorough_scale=20, run=native, level=EXPL, technique="runtime oracle on exhaustive 49x49 unit grid + seeded random operands (reference = integer exponent model and raw f32 operator)",
+        quick_scale=10, thorough_scale=20, run=native, level=EXPL, technique="runtime oracle on exhaustive 49x49 unit grid + seeded random operands (reference = integer exponent model and raw f32 operator)",
         rule="enumerate every ordered pair of the 49 grid units x every Unit/Quantity operator form (and every mixed Time/DimensionlessInteger cell x 49 units) with fresh random finite values, plus random exponents up to |60|; a case is distinct by (sub-check, lhs exponents, rhs exponents) / constant name / conversion unit",
         assumptions=["harness built in debug profile so dimension checking is compiled in (asserted at run time via size_of::<Unit>() != 0)",
                      "a panic is observed as an unwind through catch_unwind",
                      "expected exponents of named constants are parsed from the constant's NAME by lib/gen_constants.py"],
     ),
     "C05": dict(
-        thorough_scale=6, run=native, level=EXPL, technique="metamorphic runtime monitor over scripted fault histories (error provenance, reset==fresh-instance, None-deletion, get-purity; bit-exact between runs of the real code)",
+        quick_scale=2, thorough_scale=6, run=native, level=EXPL, technique="metamorphic runtime monitor over scripted fault histories (error provenance, reset==fresh-instance, None-deletion, get-purity; bit-exact between runs of the real code)",
         rule="per stream type (14 incl. f32/Quantity variants) seeded histories of length <=48 over {present, absent, Err(1), Err(2)} from four grammar styles (iid, runs separated by resets, noise, reset followed by >=3 present), CommandPID also set(same/other value/other kind), freeze also condition {true,false,absent}; distinct = (stream, set of adjacent event-kind pairs, length class)",
         assumptions=["reset table per stream taken from the property anchors (PID/Integral/Derivative: None+Err; CommandPID: None+Err+set(different); EWMA/MovingAverage/to-state: Err, None ignored; Float/Quantity converters: every update)",
                      "freeze is not driven with an erroring condition getter (statement silent); after cond=absent then cond=true both absent and the last passed value are accepted",
                      "timestamps strictly increasing for PID/CommandPID/integral/derivative/to-state, non-decreasing for the filters"],
     ),
     "C04": dict(
-        thorough_scale=15, run=native, level=EXPL, technique="runtime reference-model monitor (f64 textbook PID with forward error bound) + bit-exact metamorphic relations + differential against the controller assembled from the crate's own streams",
+        quick_scale=10, thorough_scale=15, run=native, level=EXPL, technique="runtime reference-model monitor (f64 textbook PID with forward error bound) + bit-exact metamorphic relations + differential against the controller assembled from the crate's own streams",
         rule="seeded histories of length <=64 from the grammar run((absent|error)+ run)* with run lengths 1,2,3,4-9,10-39, intervals log-uniform 1us..10h (every third history constant-interval), gains/setpoint/samples stratified in +-1e4 incl. zeros; distinct = (set of run-length classes, set of interval decades, absent count class, error count class)",
         assumptions=["strictly increasing timestamps by construction (dt=0 is outside the quantifier)",
                      "forward bound (40+4n)*2^-24*(|kp e| + |ki| sum|addend| + |kd|(|e|+|e_prev|)/dt), n = samples in the run; largest observed ratio is reported as reference_err_over_bound",
                      "the assembled controller updates every node at every step (examples/pid.rs stops at the first erroring node, which would leave the derivative stream unreset)"],
     ),
     "C10": dict(
-        thorough_scale=25, run=native, level=EXPL, technique="runtime reference-model monitor (f64 trapezoid sums / difference quotients with propagated forward error bound), unit probing, panic capture, bit-exact shift metamorphic relation",
+        quick_scale=10, thorough_scale=25, run=native, level=EXPL, technique="runtime reference-model monitor (f64 trapezoid sums / difference quotients with propagated forward error bound), unit probing, panic capture, bit-exact shift metamorphic relation",
         rule="per stream (integral, derivative, three to-state converters) seeded histories of <=64 events with strictly increasing stamps (intervals 1us..2h, a quarter constant-interval), four non-linear signal shapes (random walk, sinusoid, steps, white), interleaved absent/error events; integral/derivative input unit drawn from the 7x7 grid; distinct = (stream, input unit, position of the sample in its run) ; plus exhaustive 3 converters x 49 units x offending-sample position for the panic clause",
         assumptions=["double quantities follow the staging the code documents (second integral / difference starts at the first sample where the first one exists)",
                      "forward bound (48+8n)*2^-24*(propagated sum of |terms|), n = samples in the run; largest observed ratio reported per stream/component",
                      "dimension checking compiled in (debug build) for the panic clause"],
     ),
     "C12": dict(
-        thorough_scale=30, run=native, level=EXPL, technique="runtime reference-model monitor (exact i64 window weights + f64 weighted average; one-step EWMA law with the crate's own powf), panic capture, bit-exact f32-vs-Quantity differential",
+        quick_scale=4, thorough_scale=30, run=native, level=EXPL, technique="runtime reference-model monitor (exact i64 window weights + f64 weighted average; one-step EWMA law with the crate's own powf), panic capture, bit-exact f32-vs-Quantity differential",
         rule="seeded histories of <=64 events (present with non-decreasing, 15% repeated, stamps; absent; two errors), steps 1ns..1h, windows 1ns..10h incl. windows shorter than a step and longer than the history, smoothing in {0,1,2^-k,U(0,1)}, every 7th history constant-valued; all four filter variants driven by the same history; distinct = (set of window occupancies seen, window decade, smoothing quartile, has-error, has-absent)",
         assumptions=["non-decreasing timestamps and positive windows only (negative dt / non-positive windows are outside the quantifier)",
                      "EWMA checked one step at a time against prev*(1-L)+new*L with prev = the stream's own previous output and L = 1 - powf(1-s, dt) using the crate's powf obtained through ExponentStream; bound 24*2^-24*(|prev|+|new|)",
                      "moving average bound (48+8n)*2^-24*sum(w_i|x_i|)/W, n = samples in the window; first sample within 4 ulp (x*W/W is two roundings)"],
     ),
     "C11": dict(
-        thorough_scale=50, run=native, level=EXPL, technique="runtime reference-model monitor (f64 staged PID / integral / double-integral state machine with propagated forward bound) + bit-exact twin instance for set(same)",
+        quick_scale=20, thorough_scale=50, run=native, level=EXPL, technique="runtime reference-model monitor (f64 staged PID / integral / double-integral state machine with propagated forward bound) + bit-exact twin instance for set(same)",
         rule="seeded histories of <=48 steps; each step optionally issues set(command) {same, same kind other value, other kind} or changes the followed command getter {command, absent, error} (every third history follows a getter), then feeds a state sample / absent / error and updates; distinct gains per kind; distinct = (command kind, sample index since restart, following?, set of restart causes seen so far)",
         assumptions=["staging mirrored from the documentation: I and D of the error start at the 2nd sample of a run, integral of u from the 2nd, double integral from the 3rd",
                      "forward bound (64+12n)*2^-24*(propagated sum of |terms|); largest observed ratio per kind reported",
@@ -139,13 +141,13 @@ PROPS = {
                      "the error-reported clause is checked on the get() immediately after the erroring update only"],
     ),
     "C06": dict(
-        thorough_scale=25, run=native, level=EXPL, technique="runtime consistency monitor across the six accessors of the same object (presence/mode table, bit-identity of history vs accessor), boundaries recovered by bisection of get_piece, monotonicity of pieces monitored on sorted query times",
+        quick_scale=20, thorough_scale=25, run=native, level=EXPL, technique="runtime consistency monitor across the six accessors of the same object (presence/mode table, bit-identity of history vs accessor), boundaries recovered by bisection of get_piece, monotonicity of pieces monitored on sorted query times",
         rule="seeded profiles (positions +-1e4, limits log-uniform 1e-2..1e3, start/end speeds inside and outside the limit, zero/non-zero end velocity and acceleration => all three end-command kinds, forward and reversed moves, geometry comfortably feasible / around the feasibility edge / arbitrary; a constructor panic is an allowed outcome) x query times {i64 extremes, -1,0,1, each recovered boundary +-2 ns, 48 (quick) / 256 (thorough) random times in [0,2*t3]}; distinct = (direction, end-command kind, set of non-empty phases, decade of t3, signs of start/end velocity)",
         assumptions=["boundaries t1..t3 are private: they are recovered from get_piece by bisection on [0,2^62] and the direct reads are cross-checked against them",
                      "velocity/position presence before t=0 is not constrained (statement only constrains mode, acceleration, history there)"],
     ),
     "C07": dict(
-        thorough_scale=20, run=native, level=EXPL, technique="runtime reference-model monitor (f64 trapezoid from the inputs and the recovered boundaries, forward error bound), Simpson integral relation between accessors, bit-exact mirror metamorphic relation, acceptance oracle for comfortably feasible moves",
+        quick_scale=4, thorough_scale=20, run=native, level=EXPL, technique="runtime reference-model monitor (f64 trapezoid from the inputs and the recovered boundaries, forward error bound), Simpson integral relation between accessors, bit-exact mirror metamorphic relation, acceptance oracle for comfortably feasible moves",
         rule="same seeded profile generator as C06 (60% comfortably feasible by construction: speeds = max_vel*u with |u|<=1 and displacement >= 1.05*(accel+decel distance)+1e-3), each accepted profile queried at boundary +-2 ns times plus 96 (quick) / 512 (thorough) random times inside the move; distinct = (direction, set of non-empty phases, decade of t3, sign of start velocity, end velocity non-zero, comfortable)",
         assumptions=["reference built from the recovered ns boundaries so their truncation is not charged as error; forward bound 48*2^-24*sum|terms| with the term magnitudes of the closed forms (|p0|,|v0 t|,|a t1 t|,|a t^2| ...); largest observed ratios reported",
                      "mirror relation negates whole states (position, velocity and acceleration) and is checked only for non-zero displacement (sign tie-break at dp=0 is legitimate)",
@@ -168,7 +170,7 @@ PROPS = {
                      "Getter<TerminalData> (combined read) is stamped with the state's time by design (C09 statement), so it is only required to carry one of the part stamps here"],
     ),
     "C09": dict(
-        thorough_scale=4, run=native, level="fault_enumeration", technique="model-based runtime monitor: partner relation rebuilt from terminal reads alone (twice: from state reads of power-of-two labels and from command reads) and compared with a set-of-pairs model; exhaustive BFS over reachable matchings x operations under panic capture; f64 reference for the read semantics",
+        quick_scale=4, thorough_scale=4, run=native, level="fault_enumeration", technique="model-based runtime monitor: partner relation rebuilt from terminal reads alone (twice: from state reads of power-of-two labels and from command reads) and compared with a set-of-pairs model; exhaustive BFS over reachable matchings x operations under panic capture; f64 reference for the read semantics",
         level_text="Every reachable link state of 2..6 terminals x every connect/disconnect operation is enumerated (breadth-first) and executed on fresh terminals under panic capture, so the operation-sequence part of the quantifier is covered completely up to n=6; the value/timestamp part is sampled. Still only 'held on what was executed'.",
         rule="exhaustive BFS: for n = 2..=6 every one of the 2/4/10/26/76 matchings x every connect(i,j), i!=j, and disconnect(i) x labels written first or last, each edge replayed on fresh terminals; plus random walks of 64 steps on 2..6 terminals and random read-semantics histories of 8..20 steps (set-state, set-command, connect, disconnect) with all three reads of every terminal checked after every step; distinct = (n, matching, operation, variant) / (n, pre-matching, op) / structural shape of the history",
         assumptions=["connect(a,a) is never issued (outside the property)",
@@ -177,7 +179,7 @@ PROPS = {
                      "combined read is checked against the same terminal's own state and command reads taken just before; both Datum.time and TerminalData.time must carry the state's stamp when there is one"],
     ),
     "C14": dict(
-        thorough_scale=20, run=native, level=EXPL, technique="f64 reference with forward error bound for the kinematics; exact canonical-bit comparison against plain f32 operators for arithmetic and conversions; exhaustive enumeration of unit, zero-pattern and kind-pair tables; panic capture for the iff-panic clauses",
+        quick_scale=4, thorough_scale=20, run=native, level=EXPL, technique="f64 reference with forward error bound for the kinematics; exact canonical-bit comparison against plain f32 operators for arithmetic and conversions; exhaustive enumeration of unit, zero-pattern and kind-pair tables; panic capture for the iff-panic clauses",
         rule="eight sub-checks, each case a pure function of (seed, stream, case): update (states with 20% +-0 per component, moderate and wide magnitudes, dt stratified in +-1e5 s incl. 0, +-1 ns), update-extreme (any finite triple), setters (49 grid units x 3 Quantity setters + raw setters), state-new (3 slots x 49 units), from-state (all 4^3 patterns of {+0,-0,>0,<0}), cmd-conv, state-arith, cmd-arith (3x3 kind pairs x 9 operator forms); distinct by (sub-check, zero/sign pattern, sign and decade of dt, unit, kind pair)",
         assumptions=["dimension checking compiled in (debug build)",
                      "kinematics reference judged with bound 32*2^-24*sum|terms| plus the i64-ns -> f32-seconds conversion rounding; dt = 0 is the identity on canonical bits (-0 == +0)",
@@ -185,21 +187,21 @@ PROPS = {
                      "in update-extreme (any finite triple) a non-finite result where the true result is representable is a violation; the overflow of intermediates when some term exceeds 1e37 is a listed known finding"],
     ),
     "C15": dict(
-        thorough_scale=40, run=native, level=EXPL, technique="model-based random operation sequences against an exact executable model; scripted recording history; fault-injecting getters, clocks and settable; panic capture",
+        quick_scale=10, thorough_scale=40, run=native, level=EXPL, technique="model-based random operation sequences against an exact executable model; scripted recording history; fault-injecting getters, clocks and settable; panic capture",
         rule="three sub-checks: seq (operation sequences <=40 over a recording settable with scripted accept/reject, two scripted getters, a ConstantGetter that is settable/following/followable, four clock kinds), hist (GetterFromHistory over a scripted history recording every queried time, four constructors by quota, three clock kinds, <=40 ops from {get, clock advance/jump/error, set_delta, set_time, update with scripted errors}), adapters (Time as TimeGetter, NoneGetter, TimeGetterFromGetter, ConstantGetter); after every operation result, get_last_request, the impl_set log, get() and the history's query log are compared exactly with the model; distinct = (previous op, op, following state, followed-getter category) / (constructor, clock kind, op bigram, offset class) / event bigrams",
         assumptions=["in hist all clock values, starts, deltas and set_time targets satisfy |x| <= 2^60 so nothing overflows",
                      "a settable whose update() does not call update_following_data forwards nothing on update()",
                      "when the history's own update fails only 'history called once, first' is required (statement silent on the time getter then)"],
     ),
     "C18": dict(
-        thorough_scale=20, run=native, level=EXPL, technique="exact i128 integer oracle; exact f64 rational references for the conversions with the statement's own bounds; non-decreasing chains for monotonicity; differential check of the mixed operators against Quantity operators on Quantity::from-converted operands with panic capture on both sides",
+        quick_scale=4, thorough_scale=20, run=native, level=EXPL, technique="exact i128 integer oracle; exact f64 rational references for the conversions with the statement's own bounds; non-decreasing chains for monotonicity; differential check of the mixed operators against Quantity operators on Quantity::from-converted operands with panic capture on both sides",
         rule="seeded generators: i64 operands over bit-lengths 0..62 x sign (plus values next to k*2^24, f32 midpoints, 2^k, whole seconds) with operand pairs built so the i64 result exists; f32 seconds |x| < 9e9 stratified by exponent; 49 grid units x 27 mixed operator cells; exhaustive: |ns| <= 2^16 and +-(2^k+{-1,0,1}) for Time->Quantity, 49 units x try_from, 49 units x 27 mixed cells; distinct = (sub-check or operator group, magnitude stratum and sign of each operand, unit)",
         assumptions=["debug build with dimension checking and overflow checks on; overflow and division by zero are outside the property",
                      "'within 2 ulps' accepts either reading (distance to the correctly rounded f32, or real error); truncation and rounding both accepted for Quantity->Time",
                      "DimensionlessInteger<->Quantity value checks are lenient (statement only loosely covers them)"],
     ),
     "C08": dict(
-        thorough_scale=25, run=native, level=EXPL, technique="runtime reference-model monitor: f64 least-squares projection of the states read through the API just before update() (forward error bound), own slots read back with get_last_request; constraint residual and untouched-slot checks; behavioural observation of the tooth-count ratio",
+        quick_scale=5, thorough_scale=25, run=native, level=EXPL, technique="runtime reference-model monitor: f64 least-squares projection of the states read through the API just before update() (forward error bound), own slots read back with get_last_request; constraint residual and untouched-slot checks; behavioural observation of the tooth-count ratio",
         rule="per device (Invert, GearTrain with ratio in +-[1e-2,1e2] via with_ratio_raw / with_ratio, Axle<0..6>, Differential x {Side1,Side2,Sum,Equal,new()}) seeded cases of 1..8 rounds; each round writes new states (distinct increasing stamps) into a random subset of own and connected external terminals (15% of cases with mutually consistent values), then read -> update -> read back; every presence subset of the 2- and 3-terminal devices carries a coverage floor; tooth lists of length 2..6; distinct = (device, presence mask of the reads, round class, consistent?)",
         assumptions=["'states read at its terminals' = Getter<State> on the device's own terminals immediately before update() (mean of own and connected partner), as the statement words it",
                      "forward bound 48*2^-24*sum|terms| per component; largest observed ratio per device reported; 'unchanged' for consistent inputs is within that bound",
